@@ -20,7 +20,7 @@ type c18 struct{}
 func (c18) ID() string    { return "C18" }
 func (c18) Level() string { return "exploration" }
 func (c18) Rule() string {
-	return "env files assembled from the documented line grammar: 1-line files over key shape x separator x quoting x all value texts of <=3 (4 for one key/sep) tokens from a 16-token alphabet (incl. every documented escape pair, the escaped backslash among them); 2- and 3-line files over a line-form alphabet; 4..6-line files over 6 forms; each with and without trailing newline and with 4 lookup functions; every 2-line file also through each of the six other public parsing functions (UnmarshalWithLookup, UnmarshalBytesWithLookup, ReadFile, ReadWithLookup, GetEnvFromFile, Parse) (none, one name, two names, a name defined as the empty string); plus every string over a 13-symbol alphabet (12 bytes and the keyword export) up to 6 symbols (7 thorough) and every distance-1 byte edit of the repository's dotenv fixtures. Reference evaluator decides defined / must-error / outside; non-trivial = the reference defines the result; distinct = distinct (verdict, resulting map) signatures"
+	return "env files assembled from the documented line grammar: 1-line files over key shape x separator x quoting x all value texts of <=3 (4 for one key/sep) tokens from a 16-token alphabet (incl. every documented escape pair, the escaped backslash among them); 2- and 3-line files over a line-form alphabet; 4..6-line files over 6 forms; each with and without trailing newline and with 4 lookup functions; every 2-line file also through each of the six other public parsing functions (UnmarshalWithLookup, UnmarshalBytesWithLookup, ReadFile, ReadWithLookup, GetEnvFromFile, Parse) (none, one name, two names, a name defined as the empty string); every printable ASCII byte inside / in front of / at the end of a key in 7 line forms; plus every string over a 13-symbol alphabet (12 bytes and the keyword export) up to 6 symbols (7 thorough) and every distance-1 byte edit of the repository's dotenv fixtures. Reference evaluator decides defined / must-error / outside; non-trivial = the reference defines the result; distinct = distinct (verdict, resulting map) signatures"
 }
 func (c18) Assumptions() []string {
 	return []string{
@@ -221,6 +221,14 @@ func (c18) Run(c *core.Ctx) {
 		}
 		for _, st := range styles {
 			run(fmt.Sprintf("l1/4/%d/%s", vi, st), "A="+wrap(st, v)+"\n")
+		}
+	}
+	// every printable ASCII byte inside, in front of and at the end of a key, in every line form: the reference knows
+	// which bytes a key may hold
+	for b := 0x21; b <= 0x7e; b++ {
+		ch := string(rune(b))
+		for fi, form := range []string{"A%sB=1", "A%sB: 1", "export A%sB=1", "A%sB", "%sA=1", "A%s=1", "A%s"} {
+			run(fmt.Sprintf("keychar/%02x/%d", b, fi), fmt.Sprintf(form, ch)+"\n")
 		}
 	}
 	// bare keys
